@@ -253,6 +253,28 @@ func factsReceive() {
 
 	// C24: order of Start / deferred Done / error check in the two HTTP entry points
 	emitList("receiveHTTPGate", "pkg/receive/handler.go receiveHTTP: gate skeleton", gateSkeleton(fn(f, "Handler", "receiveHTTP")))
+	// C24: each handler starts and releases the gate exactly once
+	emitList("receiveHTTPGateCalls", "pkg/receive/handler.go receiveHTTP: calls of writeGate.Start / writeGate.Done",
+		callSeq(body(fn(f, "Handler", "receiveHTTP")), "writeGate.Start", "writeGate.Done"))
 	fo := parse("pkg/receive/handler_otlp.go")
+	emitList("receiveOTLPHTTPGateCalls", "pkg/receive/handler_otlp.go receiveOTLPHTTP: calls of writeGate.Start / writeGate.Done",
+		callSeq(body(fn(fo, "Handler", "receiveOTLPHTTP")), "writeGate.Start", "writeGate.Done"))
+	// C24: the gate wrappers of pkg/gate and the limiter's decision to build a gate
+	gf := parse("pkg/gate/gate.go")
+	emitStr("gateNewNoopCond", "pkg/gate/gate.go New: when the noop gate is used", firstIfCond(body(fn(gf, "", "New")), "maxConcurrent"))
+	emitList("gateNewWrappers", "pkg/gate/gate.go New: the instrumenting wrappers, outermost first",
+		callSeq(body(fn(gf, "", "New")), "InstrumentGateDuration", "InstrumentGateTotal", "InstrumentGateInFlight"))
+	emitList("gateInFlightStart", "pkg/gate/gate.go instrumentedInFlightGate.Start: inner Start, then Inc",
+		callSeq(body(fn(gf, "instrumentedInFlightGate", "Start")), "Start", "Inc"))
+	emitList("gateInFlightDone", "pkg/gate/gate.go instrumentedInFlightGate.Done: Dec, then inner Done",
+		callSeq(body(fn(gf, "instrumentedInFlightGate", "Done")), "Dec", "Done"))
+	emitList("gateTotalStart", "pkg/gate/gate.go instrumentedTotalGate.Start: Inc, then inner Start",
+		callSeq(body(fn(gf, "instrumentedTotalGate", "Start")), "Inc", "Start"))
+	emitList("gateNoopCalls", "pkg/gate/gate.go noopGate: calls made by Start and Done (none)",
+		append(callSeq(body(fn(gf, "noopGate", "Start")), "Start", "Done", "Inc", "Dec", "Err"), callSeq(body(fn(gf, "noopGate", "Done")), "Start", "Done", "Inc", "Dec")...))
+	lf := parse("pkg/receive/limiter.go")
+	emitStr("limiterGateCond", "pkg/receive/limiter.go loadConfig: when a write gate is built", firstIfCond(body(fn(lf, "Limiter", "loadConfig")), "maxWriteConcurrency"))
+	emitList("limiterDefaultGate", "pkg/receive/limiter.go NewLimiter: the gate a new limiter starts with",
+		callSeq(body(fn(lf, "", "NewLimiter")), "gate.NewNoop", "gate.New"))
 	emitList("receiveOTLPHTTPGate", "pkg/receive/handler_otlp.go receiveOTLPHTTP: gate skeleton", gateSkeleton(fn(fo, "Handler", "receiveOTLPHTTP")))
 }
